@@ -107,7 +107,10 @@ def gen_dec(rng):
                                         b'(a(b)c)', b'(\\(\\051)', b'(\\101\\7\\1234)', b'(a\\\nb)', b'(a\rb)', b'<48 65 6c6C6f>', b'<4>', b'<>',
                                         b'[1 2 3]', b'[(a) -12.5 (b)]', b'[/N [1] <<>>]', b'<</K 1/L[2]>>', b'<< /A /B /A /C >>',
                                         b'true', b'false', b'null', b'1 0 R', b'[1 0 R]', b'99999999999999999999',
-                                        b'9223372036854775807', b'-9223372036854775808', b'00012', b'[', b']', b'<<', b'(', b'\\']))
+                                        b'9223372036854775807', b'-9223372036854775808', b'00012', b'[', b']', b'<<', b'(', b'\\',
+                                        b'/A#', b'/A#G1', b'/#', b'/A#4', b'/A#4g', b'/#23#2f', b'<4 G>', b'(\\8\\400)', b'1.2.3', b'+-1', b'--1', b'.',
+                                        b'[' * 100 + b']' * 100, b'[' * 101 + b']' * 101, b'[' * 99 + b'<<' + b'>>' + b']' * 99,
+                                        b'<</K' * 100 + b' 1' + b'>>' * 100, b'<</K' * 101 + b' 1' + b'>>' * 101]))
             op = rng.choice(['q', 'Q', 'Tj', 'TJ', 'cm', "'", '"', 'T*', 'f*', 'BI', 'BT', 'ET', 'true', 'nullx', 'x', 'ID', 'EI', 're'])
             sep = rng.choice([b' ', b'\n', b'\t', b'\r\n', b'  ', b'\x00', b'\x0c'])
             parts.append(sep.join(toks + [op.encode()]))
@@ -253,9 +256,11 @@ SPEC = {
     'gen_cases': gen_cases,
     'compare': compare,
     'classify': classify,
-    'partial_note': 'second sentence of the property (decode, encode, decode again) is proved for the class of inline images '
-                    'that decode produces (C14_inline_image_rt_partial, image_dom) rather than for every content that decodes; '
-                    'the full clause is evaluated on the implementation for every dec case',
+    'partial_note': 'second sentence of the property (decode, encode, decode again): proved that every decoded inline image has the '
+                    'image-specific part of the domain (C14_inline_image_decoded) and re-encodes to bytes that decode to the same '
+                    'operation under three assumed facts about the parsed dictionary values (C14_inline_image_reencode_partial: '
+                    'well-formed, normal form, nesting within the limit); the literal clause is evaluated on the implementation '
+                    'for every dec case',
     'rule': 'random operation sequences (operators over the parser alphabet, 0-6 operands of every direct kind nested to depth 3, '
             'adversarial bytes in names/strings, f32 reals printed by Rust itself) encoded then decoded; raw content streams '
             '(token soup with comments, all EOL flavours, valid and invalid inline images, byte damage) decoded, re-encoded, '
@@ -281,8 +286,8 @@ MANIFEST = {
                   'src/{writer,parser/mod,content,reader}.rs on every run; the model is tied to the crate by differential runs.',
     'level_note': 'Open known findings: C14-keyword-operator (operator text beginning with null/true/false, or BI without operands) and '
                   'C14-deep-nesting (operand containers nested deeper than MAX_BRACKET=100). Partial: the decode-encode-decode clause '
-                  'for inline images is proved for the class of images decode produces, not for arbitrary decodable content '
-                  '(C14_inline_image_rt_partial). Trusted: Coq kernel; translator part Lex; hand-written models Writer.v/Parser.v tied by '
+                  'for inline images is proved up to three assumed facts about the parsed dictionary values '
+                  '(C14_inline_image_decoded, C14_inline_image_reencode_partial). Trusted: Coq kernel; translator part Lex; hand-written models Writer.v/Parser.v tied by '
                   'correspondence (encoded bytes and decoded operations, valid and malformed streams); f32 Display/FromStr (Rust std: printed '
                   'shape, from_str(to_string x) = x); extraction/OCaml driver; Rust harness. No axioms (Print Assumptions: closed).',
     'technique': 'Coq proof: 256-case sweeps on regenerated byte sets + structural / nested induction with explicit continuations '
